@@ -692,6 +692,14 @@ func (s *scanner) stateAnyAnnotationStart(c byte) (st state, err error) {
 }
 
 func (s *scanner) stateInlineAnnotation(c byte) (state, error) {
+	if bytes.IsNewLine(c) {
+		// An annotation without text ends with its line.
+		s.found(lexeme.InlineAnnotationEnd)
+		s.found(lexeme.NewLine)
+		s.step = s.returnToStep.Pop()
+		s.annotation = false
+		return scanSkip, nil
+	}
 	if bytes.IsBlank(c) {
 		return scanSkip, nil
 	}
